@@ -9,6 +9,7 @@
    that premise is the C07/C08 side of the property and is checked on the real EVM by
    the C05 harness (sum of balances before/after every transaction and block). *)
 From AQ Require Import Lib.Bytes Tx.Transition Tx.Supply Tx.TxProofs Tx.SupplyProofs Generated.GenParamsTx.
+From AQ Require Evm.Interp Evm.InterpProofs3 Tx.InterpSupply.
 Import ListNotations.
 Local Open Scope Z_scope.
 
@@ -66,6 +67,57 @@ Theorem C05_block_supply : forall cfg dealloc run s h txs uncles s' rs used,
    supply s' = supply s + issuance (h_number h) uncles).
 Proof. exact block_supply. Qed.
 Print Assumptions C05_block_supply.
+
+(* The premise run_no_inflation, at the level of the C07 interpreter (AQ.Evm.Interp: the real instruction set,
+   jump tables, gas, CALL / CALLCODE / DELEGATECALL / STATICCALL, reverts, SELFDESTRUCT, precompiles), for every
+   code, fuel and world: balances stay non-negative and the sum of all balances does not grow — it can only
+   shrink, by a SELFDESTRUCT naming the contract itself.  `_partial`: the CREATE instruction is excluded (no byte
+   0xf0 in the code of the frame or of any account): Interp's stack holds unbounded integers and carries no
+   theorem that entries are >= 0, which evm.Create's value operand needs (see Tx/InterpSupply.v).  Full strength
+   would drop `wcf` / `cf` and instantiate `run` of C05_tx_no_inflation with the interpreter. *)
+Theorem C05_exec_no_inflation_partial : forall fuel e w fr,
+  (exists s, Interp.e_tbl e = Interp.ctbl_of s) ->
+  InterpSupply.winv w -> InterpSupply.wcf w -> InterpSupply.cf (Interp.f_code fr) ->
+  let o := Interp.interp fuel e w fr in
+  InterpSupply.winv (Interp.o_world o) /\ InterpSupply.wcf (Interp.o_world o) /\
+  InterpSupply.wsupply (Interp.o_world o) <= InterpSupply.wsupply w.
+Proof. exact InterpSupply.exec_no_inflation. Qed.
+Print Assumptions C05_exec_no_inflation_partial.
+
+Theorem C05_call_no_inflation_partial : forall fuel e w caller addr input gas value,
+  (exists s, Interp.e_tbl e = Interp.ctbl_of s) ->
+  InterpSupply.winv w -> InterpSupply.wcf w -> 0 <= value ->
+  let o := Interp.call_top fuel e w caller addr input gas value in
+  InterpSupply.winv (Interp.o_world o) /\ InterpSupply.wcf (Interp.o_world o) /\
+  InterpSupply.wsupply (Interp.o_world o) <= InterpSupply.wsupply w.
+Proof. exact InterpSupply.call_top_no_inflation. Qed.
+Print Assumptions C05_call_no_inflation_partial.
+
+(* "... and by exactly that amount whenever no contract self-destructs", at the interpreter level: when neither
+   CREATE (excluded as above) nor SELFDESTRUCT (0xff) occurs in any code, a message call conserves the sum
+   exactly; no sign condition on balances or value is needed *)
+Theorem C05_call_supply_exact_partial : forall fuel e w caller addr input gas value,
+  (exists s, Interp.e_tbl e = Interp.ctbl_of s) -> InterpSupply.wnf w ->
+  let o := Interp.call_top fuel e w caller addr input gas value in
+  InterpSupply.wnf (Interp.o_world o) /\ InterpSupply.wsupply (Interp.o_world o) = InterpSupply.wsupply w.
+Proof. exact InterpSupply.call_top_supply_exact. Qed.
+Print Assumptions C05_call_supply_exact_partial.
+
+(* non-vacuity: a contract holding 10 that pays 3 to its caller and then self-destructs to itself, called with
+   value 5 under mainnet rules at height 40000: the premises hold, and the sum goes from 1015 to 1003 (12 burnt) *)
+Example C05_interp_example :
+  let e := InterpProofs3.demo_env 40000 in
+  let code := [0x60; 0; 0x60; 0; 0x60; 0; 0x60; 0; 0x60; 3; 0x33; 0x60; 0; 0xf1; 0x50; 0x30; 0xff] in
+  let w := Interp.mk_world [(0xaa, Interp.mk_account 0 1000 [] [] false); (0xbb, Interp.mk_account 1 10 code [] false)] [] 0 in
+  (exists s, Interp.e_tbl e = Interp.ctbl_of s) /\ InterpSupply.winv w /\ InterpSupply.wcf w /\
+  let o := Interp.call_top 200 e w 0xaa 0xbb [] 100000 5 in
+  Interp.o_res o = Interp.R_ok [] /\ InterpSupply.wsupply w = 1010 /\ InterpSupply.wsupply (Interp.o_world o) = 998.
+Proof.
+  cbv zeta. split; [eexists; reflexivity|].
+  split; [apply InterpSupply.winvb_winv; reflexivity|].
+  split; [apply InterpSupply.wcfb_wcf; reflexivity|].
+  vm_compute. repeat split; reflexivity.
+Qed.
 
 (* non-vacuity: a block at height 100 with one uncle at depth 2 and one value transfer, on a
    non-negative state, with an interpreter meeting the premises: total grows by 1 + 6/8 + 1/32 AQUA *)
